@@ -93,5 +93,25 @@ P("C38", "exploration",
   [H("main", "h_codec", 6000, 600000, post=post_codec.post_c38)], [A_SAN, "Python's json module is the trusted JSON reference; duplicate keys and lone surrogates are excluded (reference semantics differ)"],
   {"meta.valid-documents": 2000, "meta.fields-compared": 20000, "meta.deep-nesting-inputs": 100, "meta.documents-cross-checked-with-python-json": 500})
 
+P("C04", "fault_enumeration",
+  "part hist: random histories of put/overwrite/lookup/sweep/restart/clock-advance on a persistent ChunkStore (wipe passes 0..3, sizes 0..20000) with a directory listing after every step and "
+  "hard links taken before every wipe so the overwritten blocks stay observable; part crash: for each scenario (store; overwrite; sweep; lookup-then-sweep; random) the child is SIGKILLed by a ptrace "
+  "supervisor at EVERY filesystem syscall entry (openat/write/writev/close/unlink/...), then a fresh ChunkStore on the same directory runs one cleanup far past every deadline; distinct = op-sequence hash / (scenario, size, crash point)",
+  [H("hist", "h_store", 600, 60000, hprop="C04"), H("crash", "h_store", 18, 216, hprop="C04crash", qworkers=9, timeout_q=900)],
+  [A_SAN, A_VCLK, "a crash is a process kill at system-call granularity; power loss / page-cache loss is out of reach", "wipe observation assumes the filesystem keeps a hard-linked inode's blocks in place on overwrite"],
+  {"files.cleanups": 500, "files.restarts": 200, "files.removals-observed-via-hardlink": 300, "files.expiry-first-noticed-by-lookup": 50, "crash.points-exercised": 300})
+
+P("C06", "exploration",
+  "case = history of 10..80 add/withdraw/find/sweep/clock operations over 2..4 chunks and 2..25 peers (crossing the cap of 20) with mixed long/short TTLs, checked against a reference map "
+  "chunk -> peer -> latest deadline (cap keeps the latest-expiring); lookups compared as sets of (peer, address, deadline); distinct = operation-sequence hash",
+  [H("main", "h_store", 3000, 400000)], [A_SAN, A_VCLK],
+  {"providers.lookups-nonempty": 2000, "providers.sweeps": 1000, "providers.cap-evictions": 50})
+
+P("C07", "exploration",
+  "case = history of register_peer/add_contact/sweep/clock/query over ids sharing 0..255 prefix bits with the local id (one bucket deliberately overflowed); after every operation the held set is read from the "
+  "buckets and checked (no self, <= 16 per bucket, bucket = highest differing bit by independent 256-bit arithmetic, unique ids, refreshed contact single+fresh); queries compared with an independent XOR sort; distinct = operation-sequence hash",
+  [H("main", "h_store", 2000, 300000)], [A_SAN, A_VCLK, "the eviction policy is not modelled (the statement does not fix one); the held set is read from private state"],
+  {"routing.queries-nonempty": 1000, "routing.refresh-checks": 5000})
+
 NOT_APPLICABLE = {}
 HOOK_COMMITS = []
